@@ -176,11 +176,18 @@ def scenario(w):
         conf = None
     else:
         conf = S.get_config(target)
+        if route == 'get_func' and ch.flag('prime_get_func', 1, 2):
+            conf.get_func()                      # a partial is taken before the options are edited ...
+            w.probe('get_func_primed')
+        chained = ch.flag('chained_edits', 1, 3)     # ... and options may be set by chained indexing
         for k, v in fixed.items():
             conf[k] = v
         for g in opts:
             for k, v in opts[g].items():
-                conf['%s/%s' % (g, k)] = _copy(v)
+                if chained:
+                    conf[g][k] = _copy(v)
+                else:
+                    conf['%s/%s' % (g, k)] = _copy(v)
         supplied = {g: _norm(conf[g]) for g in GROUPS}      # snapshot of what this configuration was given
         call_kw = None
         if ch.flag('decoy_config', 1, 3):
@@ -216,12 +223,16 @@ def scenario(w):
             kw = dict(call_kw)
             z, amp = kw.pop('z'), kw.pop('amp')
             S.get_next_imf_mask(x.copy(), z, amp, **kw)
-        elif route == 'kwargs':
-            getattr(S, target)(x.copy(), **call_kw)
-        elif route == 'config':
-            getattr(S, target)(x.copy(), **conf)
         else:
-            conf.get_func()(x.copy())
+            # the same option objects are used for a second call in a third of the runs: an option consumed or
+            # rewritten in place by the first call would be missing from the second
+            for rep in range(2 if ch.flag('repeat_call', 1, 3) else 1):
+                if route == 'kwargs':
+                    getattr(S, target)(x.copy(), **call_kw)
+                elif route == 'config':
+                    getattr(S, target)(x.copy(), **conf)
+                else:
+                    conf.get_func()(x.copy())
     except W.InjectedFault:
         raise
     except Exception as e:
